@@ -6,6 +6,8 @@ The run is instrumented with ghost state that does NOT influence `step`:
   `pend`  per thread, what its CURRENT call did at its linearization point: `none` when the
           call has not (yet) linearized — reset at the first step of every `Push`/`Pop` —,
           `some v` = the value its `Push` appended to / its `Pop` removed from `q`.
+  `cur`, `pushed`, `popped`  the call in flight per thread and the histories of appended /
+          removed values (invariants about them: Proof/C01Hist.lean).
 Linearization points: `Push(v)` = its successful `CAS(&r.tail, pos, pos+1)` (appends `v`
 to `q`), successful `Pop` = its successful `CAS(&r.head, pos, pos+1)` (removes the head of
 `q`).  Proved: `|q| = tail − head ≤ cap`, the appended/removed element is a legal
@@ -30,6 +32,12 @@ def bqPop : List Int → Option (Int × List Int)
 structure LGhost where
   q : List Int
   pend : List (Option Int)
+  /-- per thread, the call in flight (set at the call's first step, cleared when it returns) -/
+  cur : List (Option Call)
+  /-- every value appended to `q` at a linearization point, in linearization order -/
+  pushed : List Int
+  /-- every value removed from `q` at a linearization point, in linearization order -/
+  popped : List Int
 deriving Repr, DecidableEq
 
 /-- Ghost update for one step of thread `i` from state `s` (looks at the pre-state only). -/
@@ -38,16 +46,29 @@ def gstep (s : State) (g : LGhost) (i : Nat) : LGhost :=
   | none => g
   | some th =>
     match th.pc with
-    | .pushLoadTail _ => { g with pend := g.pend.set i none }
-    | .popLoadHead => { g with pend := g.pend.set i none }
-    | .pushCAS v pos _ => if s.tail = pos then { q := g.q ++ [v], pend := g.pend.set i (some v) } else g
-    | .popCAS pos _ => if s.head = pos then { q := g.q.tail, pend := g.pend.set i g.q.head? } else g
+    | .pushLoadTail v => { g with pend := g.pend.set i none, cur := g.cur.set i (some (.push v)) }
+    | .popLoadHead => { g with pend := g.pend.set i none, cur := g.cur.set i (some .pop) }
+    | .lenLoadTail => { g with cur := g.cur.set i (some .len) }
+    | .emptyLoadHead => { g with cur := g.cur.set i (some .isEmpty) }
+    | .fullLoadTail => { g with cur := g.cur.set i (some .isFull) }
+    | .pushCAS v pos _ =>
+      if s.tail = pos then
+        { g with q := g.q ++ [v], pend := g.pend.set i (some v), pushed := g.pushed ++ [v] }
+      else g
+    | .popCAS pos _ =>
+      if s.head = pos then
+        { g with q := g.q.tail, pend := g.pend.set i g.q.head?, popped := g.popped ++ g.q.head?.toList }
+      else g
     | _ => g
+
+/-- when the step returns, the thread's current call is over -/
+def gfin (e : Event) (g : LGhost) : LGhost :=
+  if e.ret.isSome then { g with cur := g.cur.set e.tid none } else g
 
 /-- Instrumented run. -/
 def lrun (c : Cfg) : State → LGhost → List Nat → State × LGhost
   | s, g, [] => (s, g)
-  | s, g, i :: σ => lrun c (step c s i).1 (gstep s g i) σ
+  | s, g, i :: σ => lrun c (step c s i).1 (gfin (step c s i).2 (gstep s g i)) σ
 
 theorem lrun_fst (c : Cfg) (s : State) (g : LGhost) (σ : List Nat) :
     (lrun c s g σ).1 = (run c s σ).1 := by
@@ -55,7 +76,8 @@ theorem lrun_fst (c : Cfg) (s : State) (g : LGhost) (σ : List Nat) :
   | nil => rfl
   | cons i σ ih => simp only [lrun, run]; exact ih _ _
 
-def ginit (progs : List (List Call)) : LGhost := { q := [], pend := progs.map fun _ => none }
+def ginit (progs : List (List Call)) : LGhost :=
+  { q := [], pend := progs.map fun _ => none, cur := progs.map fun _ => none, pushed := [], popped := [] }
 
 /-- value stored in slot `k` -/
 def vl (slots : List Slot) (k : Nat) : Option Int := (slots[k]?).map (·.val)
@@ -110,6 +132,17 @@ structure GInv (c : Cfg) (s : State) (g : LGhost) : Prop where
   stored : ∀ p, s.head ≤ p → p < s.tail → sq s.slots (p % c.cap) = some (p + 1) →
     g.q[p - s.head]? = vl s.slots (p % c.cap)
   locals : ∀ i th, s.threads[i]? = some th → GOk c.cap s.head s.slots g.q g.pend i th.pc
+
+/-- `GInv` only looks at the abstract queue and the linearization records -/
+theorem GInv.congr {c : Cfg} {s : State} {g g' : LGhost} (h : GInv c s g) (hq : g'.q = g.q)
+    (hp : g'.pend = g.pend) : GInv c s g' := by
+  refine ⟨h.inv, by rw [hq]; exact h.qlen, by rw [hp]; exact h.pend_len, ?_, ?_⟩
+  · rw [hq]; exact h.stored
+  · rw [hq, hp]; exact h.locals
+
+theorem gfin_q (e : Event) (g : LGhost) : (gfin e g).q = g.q ∧ (gfin e g).pend = g.pend ∧
+    (gfin e g).pushed = g.pushed ∧ (gfin e g).popped = g.popped := by
+  unfold gfin; split <;> exact ⟨rfl, rfl, rfl, rfl⟩
 
 theorem GOk_finish (cap H : Nat) (slots : List Slot) (q : List Int) (pend : List (Option Int)) (i : Nat)
     (th : Thread) : GOk cap H slots q pend i th.finish.pc := by
@@ -256,7 +289,7 @@ theorem ginv_pushCAS {c : Cfg} (g : Ghost c) {s : State} {gh : LGhost} (hG : GIn
     (hpc : th.pc = .pushCAS v pos seq) (hT : s.tail = pos)
     (hI' : Inv c { s with tail := pos + 1, threads := s.threads.set i { th with pc := .pushWrite v pos seq } }) :
     GInv c { s with tail := pos + 1, threads := s.threads.set i { th with pc := .pushWrite v pos seq } }
-      { q := gh.q ++ [v], pend := gh.pend.set i (some v) } := by
+      { gh with q := gh.q ++ [v], pend := gh.pend.set i (some v) } := by
   have hI := hG.inv
   obtain ⟨hslot, _⟩ := pushCAS_slot g hI (List.mem_of_getElem? hth) hpc hT
   have hHT := hI.head_le_tail
@@ -295,7 +328,7 @@ theorem ginv_popCAS {c : Cfg} (g : Ghost c) {s : State} {gh : LGhost} (hG : GInv
     (hpc : th.pc = .popCAS pos seq) (hH : s.head = pos)
     (hI' : Inv c { s with head := pos + 1, threads := s.threads.set i { th with pc := .popRead pos seq } }) :
     GInv c { s with head := pos + 1, threads := s.threads.set i { th with pc := .popRead pos seq } }
-      { q := gh.q.tail, pend := gh.pend.set i gh.q.head? } := by
+      { gh with q := gh.q.tail, pend := gh.pend.set i gh.q.head? } := by
   have hI := hG.inv
   obtain ⟨hslot, hlt⟩ := popCAS_slot g hI (List.mem_of_getElem? hth) hpc hH
   have hHT := hI.head_le_tail
